@@ -910,7 +910,11 @@ class Generator:
     def g_transfer(self):
         # new = a re-rooted copy of src (alias / collect(keep_col_refs=False) / clone)
         m = self.m
-        cands = [p for p in (m.tables[t] for t in self.tables()) if p.m.same_as in m.tables]
+        cands = [
+            p
+            for p in (m.tables[t] for t in self.tables())
+            if p.m.same_as in m.tables and all(p.m.name_of_tok(t) is not None for t in p.m.grouping)
+        ]
         if not cands:
             return None
         new = self.rng.choice(cands)
